@@ -384,6 +384,17 @@ def check_c20(tier, seed):
         if pr.returncode != 0:
             raise run.ToolError("vfh blk failed: " + pr.stderr[-1500:])
         outs.append(o)
+    conf_outs = list(outs)
+    # height sources at the very same time, on real threads (atomicity of the update); judged black-box only
+    mt_rounds = 60000 if thorough else 12000
+    mj = [{"run": 900000 + k, "mt": {"rounds": mt_rounds // 4, "workers": w, "seed": seed * 10 + k}} for k, w in enumerate((2, 4, 8, 16))]
+    for k, j in enumerate(mj):
+        i = f"{wd}/mj{k}.ndjson"; o = f"{wd}/mt{k}.ndjson"
+        open(i, "w").write(json.dumps(j) + "\n")
+        pr = subprocess.run([run.VFH, "blk", i, o], capture_output=True, text=True)
+        if pr.returncode != 0:
+            raise run.ToolError("vfh blk (mt) failed: " + pr.stderr[-1500:])
+        outs.append(o)
     from concurrent.futures import ThreadPoolExecutor
     # implementation verdict: black-box judge
     with ThreadPoolExecutor(max_workers=12) as ex:
@@ -399,7 +410,7 @@ def check_c20(tier, seed):
             bad.append((o, at, text))
     # conformance verdict: the trace must be a behaviour of BlockWatcher.tla
     with ThreadPoolExecutor(max_workers=12) as ex:
-        res = list(ex.map(lambda ko: (ko[1],) + run.tlc_trace("BlockTrace.tla", "BlockTrace.cfg", ko[1], f"{wd}/bt{ko[0]}"), enumerate(outs)))
+        res = list(ex.map(lambda ko: (ko[1],) + run.tlc_trace("BlockTrace.tla", "BlockTrace.cfg", ko[1], f"{wd}/bt{ko[0]}"), enumerate(conf_outs)))
     for o, rc, out in res:
         if "BLKSTUCK" in out:
             mm = [x for x in out.splitlines() if "BLKSTUCK" in x][0]
@@ -426,7 +437,7 @@ def check_c20(tier, seed):
         print(f"DRIFT: the real BlockWatcher took a step BlockWatcher.tla cannot explain (line {at} of {o})")
     samples = [run_of(outs[0], 1)[:14], run_of(outs[-1], 1)[:14]]
     cov = {"states": d, "transitions": g, "traces_validated_against_impl": len(jobs), "samples": samples,
-           "tlc_schedules_replayed": nsched, "random_schedules": len(jobs) - nsched, "trace_lines_validated": nlines,
+           "tlc_schedules_replayed": nsched, "random_schedules": len(jobs) - nsched, "concurrent_rounds_on_real_threads": mt_rounds, "trace_lines_validated": nlines,
            "conformance": "drift" if drift else "accepted", "exhaustive": False,
            "rule": "BlockWatcher.tla: all interleavings of poll replies, failed polls, stale/repeated/ahead notifications and node "
                    "growth within the constants (exhaustive); real BlockWatcher: schedules sampled from every explored edge plus "
